@@ -50,7 +50,7 @@ class ContentAnalysis(BufferAnalysis):
                 self.names.append(self.dvar(fr, v))
                 self.names.append(self.evar(fr, v))
         self.names.append('D:' + CUR)
-        self.names.extend(['E:' + CUR, 'D:@state', 'D:@lastfn', 'E:@lastfn', 'NX', 'KS', 'Wm', 'Wq'])
+        self.names.extend(['E:' + CUR, 'D:@state', 'D:@lastfn', 'E:@lastfn', 'NX', 'NO', 'KS', 'Wm', 'Wq'])
         self.kvars = {}
         for fr in self.frames.values():
             for b, L in fr.bufenv.items():
@@ -250,6 +250,20 @@ class ContentAnalysis(BufferAnalysis):
                         z.le(S[0], 'NX', -S[1])
                         z.le('NX', S[0], S[1])
                     z.assign('NX', 'NX', 1)
+                if self.track_source and sigs == {'USER'}:
+                    # the event is offered to the current state first, then to each enclosing state in turn: the n-th offer goes to depth n of the active chain
+                    S = hv[1]
+                    ok = S is not None and z.entails(S[0], 'NO', -S[1]) and z.entails('NO', S[0], S[1])
+                    self.rec('O8-offer', fr, c, 'OK' if ok else 'FAIL(not the next state of the active chain)', '%s %s' % (fl, z.show()))
+                    if S is not None:
+                        z.le(S[0], 'NO', -S[1])
+                        z.le('NO', S[0], S[1])
+                    z.assign('NO', 'NO', 1)
+                if self.track_source and sigs == {'EMPTY'} and fl.get('lastsig') == 'USER':
+                    # the guard fallback re-asks the state that has just declined the event
+                    S, P = hv[1], (('E:@lastfn', 0) if fl.get('s:@lastfn') == 'S' else None)
+                    ok = S is not None and P is not None and z.entails(S[0], P[0], P[1] - S[1]) and z.entails(P[0], S[0], S[1] - P[1])
+                    self.rec('O8-offer', fr, c, 'OK' if ok else 'FAIL(the re-ask does not go to the state that declined)', '%s %s' % (fl, z.show()))
                 # remember who was asked (both chains), for answers that are tested later
                 self.set_h('@lastfn', hv, fl, z)
                 fl['lastsig'] = ','.join(sorted(sigs))
@@ -571,6 +585,7 @@ class ContentAnalysis(BufferAnalysis):
             fl['s:@state'] = 'S'
             z.assign('E:' + CUR, '0', 0)
             z.assign('NX', '0', 0)
+            z.assign('NO', '0', 0)
         rets = []
         self.block(self.entry.node.body, St({tuple(sorted(fl.items(), key=lambda kv: kv[0])): z}), fr, {'returns': rets})
         # raise statements the abstract execution never reached are unreachable for every chart that follows the protocol
